@@ -108,6 +108,33 @@ def gen_basic(rng, big=False):
     return s.text()
 
 
+def gen_steal(rng, big=False):
+    """work stealing: 2-3 streams with RANDWS schedulers; each serves its own RANDWS pool first and steals from the
+    tail of the others' pools (ABT_POOL_CONTEXT_OWNER_SECONDARY); bursts of 3-8 units land in one pool so that the
+    victims hold several units when they are robbed; the stolen units yield (pushed back to their own pool)"""
+    nes = rng.choice([2, 2, 3])
+    pools = [("randws", "mpmc") for _ in range(nes)]
+    s = Scn(rng, nes, pools)
+    for e in range(1, nes + 1):
+        others = [p for p in range(nes) if p != e - 1]
+        rng.shuffle(others)
+        s.es(e, "randws", [e - 1] + others)
+    for _ in range(rng.randint(1, 3 if big else 2)):
+        victim = rng.randrange(nes)
+        burst = []
+        for _ in range(rng.randint(3, 8)):
+            kind = rng.choice(["U", "U", "U", "T"])
+            ops = ["W"] if kind == "T" else [rng.choice(["Y", "W", "Y"]) for _ in range(rng.randint(1, 4))]
+            u = s.unit(kind, "N", victim, ops)
+            burst.append(u)
+            s.main.append("C%d" % u)
+        s.main += ["Y"] * rng.randint(0, 2)
+        rng.shuffle(burst)
+        s.main += [rng.choice(["F%d" % u, "J%d F%d" % (u, u)]) for u in burst]
+    s.main = " ".join(s.main).split()
+    return s.text()
+
+
 def gen_suspend(rng, big=False):
     """C11 family (suspend/resume): named ULTs suspend; main, helper ULTs on other streams or external threads
     poll for BLOCKED and resume at once"""
